@@ -99,6 +99,31 @@ def auth_classes(S, rng):
     add("same-length-random", "other-value", [auth_value(rbytes(rng, len(S)))])
     if S.swapcase() != S:
         add("swapcase", "other-value", [auth_value(S.swapcase())])
+    # near misses on the ENCODED text: the right base64 string with the case of some letters swapped is the
+    # encoding of a different swissnum (catches case-folding / "canonicalising" comparisons)
+    letters = [i for i, c in enumerate(b64) if bytes([c]).isalpha()]
+
+    def case_variant(positions):
+        t = bytearray(b64)
+        for i in positions:
+            t[i] = ord(bytes([t[i]]).swapcase())
+        return bytes(t)
+    if letters:
+        variants = [("first-letter", letters[:1]), ("last-letter", letters[-1:]),
+                    ("random-letter", [rng.choice(letters)]),
+                    ("several-letters", rng.sample(letters, min(len(letters), rng.randint(2, 5)))),
+                    ("all-letters", letters), ("all-lower", [i for i in letters if bytes([b64[i]]).isupper()]),
+                    ("all-upper", [i for i in letters if bytes([b64[i]]).islower()])]
+        for nm, pos in variants:
+            t = case_variant(pos)
+            try:
+                same = base64.b64decode(t) == S
+            except Exception:
+                same = False
+            if t == b64 or same:
+                continue
+            for sn, scheme in (("", b"Tahoe-LAFS"), ("-lower-scheme", b"tahoe-lafs"), ("-upper-scheme", b"TAHOE-LAFS")):
+                add("b64-case-" + nm + sn, "encoded-text-case", [scheme + b" " + t])
     # the header *text* cut or grown (catches prefix / startswith comparisons either way round)
     for k in (1, 2, 4):
         if len(good) - k > len(b"Tahoe-LAFS "):
@@ -238,7 +263,10 @@ def run(ck):
                        "legit-upload-intact", "positive-control")
     ck.require_reach("rejected-401", "rejected-400", "upload-secret-mismatch-rejected",
                      "write-enabler-mismatch-rejected", "legit-upload-finished-after-attacks",
-                     "share-byte-search-fires-on-authorized-read")
+                     "share-byte-search-fires-on-authorized-read",
+                     "stale-secret-rejected-after-abort", "stale-secret-rejected-after-timeout",
+                     "reallocated-upload-finished-by-new-uploader")
+    ck.require_monitor("current-uploader-accepted")
     ck.exhaustive = False
 
 
@@ -561,6 +589,87 @@ def one_case(ck, case_no, case_seed, routes_in_map, covered_routes, auth_familie
             ck.hit("legit-upload-finished-after-attacks")
         ck.case("legit-history", key=("legit", case_no, case_seed), sample={"swissnum": swiss, "rounds": rounds})
 
+        # ------------------------------------------------ stale upload secret after abort / timeout + re-allocation
+        # client A uploads shares {1, 2}; share 1 is aborted (or times out) while share 2 stays in progress; client B
+        # re-allocates share 1 with its own secret.  From then on only B's secret may write to / abort share 1.
+        def stale_secret_family(variant):
+            si = rbytes(rng, 16)
+            sz = rng.choice([64, 100, 200])
+            SA, SB = rbytes(rng, 20), rbytes(rng, 20)
+            dA = {1: rbytes(rng, sz), 2: rbytes(rng, sz)}
+            dB = rbytes(rng, sz)
+            r = must("stale:create-A", h.drive(h.imm.create(si, {1, 2}, sz, SA, st.R, st.C)))
+            if set(r.allocated) != {1, 2}:
+                raise LegitFailure("stale: A's allocation gave %r" % (r,))
+            for n in (1, 2):
+                must("stale:write-A", h.drive(h.imm.write_share_chunk(si, n, SA, 0, dA[n][:10])))
+            if variant == "abort":
+                must("stale:abort-A", h.drive(h.imm.abort_upload(si, 1, SA)))
+            else:
+                env.reactor.advance(29 * 60)
+                h.settle(1)
+                must("stale:keepalive-A", h.drive(h.imm.write_share_chunk(si, 2, SA, 10, dA[2][10:20])))
+                env.reactor.advance(2 * 60)      # share 1: 31 minutes idle -> timed out; share 2: 2 minutes idle
+                h.settle(1)
+            r = must("stale:create-B", h.drive(h.imm.create(si, {1}, sz, SB, rbytes(rng, 32), rbytes(rng, 32))))
+            if set(r.allocated) != {1}:
+                ck.observe("stale:share-not-reallocatable-after-" + variant)
+                return
+            ck.hit("share-reallocated-after-" + variant)
+            ck.mon("current-uploader-accepted")
+            w = h.drive(h.imm.write_share_chunk(si, 1, SB, 0, dB[:10]))
+            if w[0] != "ok":
+                ck.violation("current-upload-secret-refused",
+                             "after %s of share 1 and its re-allocation by another client, the new uploader's own "
+                             "secret is refused: %s" % (variant, repr(w)[:200]),
+                             {"variant": variant, "sibling_in_progress": 2, "result": repr(w)[:300]})
+            h.settle(1)
+            cur[0] = fingerprint(h)
+            sp = b32si(si)
+            hostile = [("stale-secret-of-previous-upload", SA)] + wrong_secret_variants(SB, rng)[:3]
+            for tag, method, path, hdrs, body in (
+                    ("next-chunk", "PATCH", "/storage/v1/immutable/%s/1" % sp,
+                     [("Content-Range", "bytes 10-29/*")], rbytes(rng, 20)),
+                    ("overwrite-written", "PATCH", "/storage/v1/immutable/%s/1" % sp,
+                     [("Content-Range", "bytes 0-9/*")], rbytes(rng, 10)),
+                    ("complete-the-share", "PATCH", "/storage/v1/immutable/%s/1" % sp,
+                     [("Content-Range", "bytes 10-%d/*" % (sz - 1))], rbytes(rng, sz - 10)),
+                    ("abort", "PUT", "/storage/v1/immutable/%s/1/abort" % sp, [], None)):
+                req = dict(route="abort_share_upload" if method == "PUT" else "write_share_data",
+                           tag="reallocated-share:" + tag, method=method, path=path, secrets=[], headers=hdrs, body=body)
+                for vn, wrong in hostile:
+                    r = judged_send("wrong-upload-secret", req, vn + "-after-" + variant, [GOOD[0][1]],
+                                    [(XT, secret_value("upload", wrong))], None)
+                    if r.status == "ok" and r.code == 401 and wrong == SA:
+                        ck.hit("stale-secret-rejected-after-" + variant)
+                    ck.case("wrong-upload-secret", key=("stale", variant, tag, vn, case_no),
+                            sample={"variant": variant, "request": tag, "secret": vn})
+            # B's secret is not A's: the sibling share still belongs to A
+            req = dict(route="write_share_data", tag="sibling-share-with-other-clients-secret", method="PATCH",
+                       path="/storage/v1/immutable/%s/2" % sp, secrets=[], body=rbytes(rng, 5),
+                       headers=[("Content-Range", "bytes 30-34/*")])
+            judged_send("wrong-upload-secret", req, "other-uploaders-secret-after-" + variant, [GOOD[0][1]],
+                        [(XT, secret_value("upload", SB))], None)
+            # both uploaders finish; the shares are theirs
+            ck.mon("legit-upload-intact")
+            fine = True
+            for n, sec, data, frm in ((1, SB, dB, 10), (2, SA, dA[2], 20 if variant == "timeout" else 10)):
+                p = h.drive(h.imm.write_share_chunk(si, n, sec, frm, data[frm:]))
+                rd = h.drive(h.imm.read_share_chunk(si, n, 0, sz + 5))
+                if p[0] != "ok" or not p[1].finished or rd[0] != "ok" or rd[1] != data:
+                    fine = False
+                    ck.violation("legit-upload-damaged",
+                                 "after re-allocation (%s variant) the rightful uploader of share %d could not finish, "
+                                 "or the share reads back different bytes" % (variant, n),
+                                 {"variant": variant, "share": n, "write": repr(p)[:200], "read": repr(rd)[:120]})
+            if fine:
+                ck.hit("reallocated-upload-finished-by-new-uploader")
+            h.settle(1)
+            cur[0] = fingerprint(h)
+
+        for variant in ("abort", "timeout"):
+            stale_secret_family(variant)
+
         # ------------------------------------------------ positive controls: the same requests, correct headers
         # (a fresh in-progress upload for the write / abort routes, as the old one is complete now)
         st.prog_si = rbytes(rng, 16)
@@ -596,11 +705,13 @@ class LegitFailure(Exception):
     pass
 
 
-# MUST_CATCH (selftest/breaks_c30.py, 16 planted breaks, all caught by a key other than the finding below):
+# MUST_CATCH (selftest/breaks_c30.py, 17 planted breaks + seeded/C30-1, seeded/C30-2; all caught):
 #   swissnum: comparison removed; only the first 16 header characters compared; any prefix of the right header
-#     accepted; right header followed by junk accepted; /corrupt routes without the check; GET routes without it
-#   upload secret: abort does not validate it; never validated; only its first byte compared
+#     accepted; right header followed by junk accepted; header compared case-insensitively (= seeded/C30-1: base64
+#     text differing only in letter case); /corrupt routes without the check; GET routes without it
+#   upload secret: abort does not validate it; never validated; only its first byte compared; previous uploader's
+#     secret survives abort/timeout + re-allocation of the share number (seeded/C30-2, stale-secret family)
 #   write enabler: not checked (server.py); only a prefix compared (mutable.py)
 #   secrets: extra kinds tolerated; unknown kinds ignored; lease-secret length unchecked; empty secret accepted;
 #     undecodable secret headers replaced by a default
-# Finding on the unchanged tree (reported to the lead): conflicting-duplicate-secret-accepted
+# Finding on the originally pinned tree (fixed in /repo since): conflicting-duplicate-secret-accepted
